@@ -297,6 +297,56 @@ def run(ctx):
     chk.ob('L2', 'bounded-append-keeps-terminator-inside', bool(obls) and not bad, (bad[0].node if bad else S.body).where(),
            S.name, bad[0].missing if bad else '',
            how='%d write obligation(s) of %s discharged: strlen(dest) + strlen(text) + 1 <= size' % (len(obls), STRAPPEND))
+    # the append refuses exactly what does not fit: text for which strlen(dest) + strlen(text) + 1 <= size is appended.
+    # (A guard that is one byte too strict is memory-safe - the clause above holds - but loses the last piece of every
+    # expansion that fills its limit exactly.)
+    senv = LinEnv(S)
+    D = Lin.sym(('strlen', ('decl', S.params[0]['id']), S.params[0]['name']))
+    T_ = Lin.sym(('strlen', ('decl', S.params[2]['id']), S.params[2]['name'])) if len(S.params) > 2 else None
+    B_ = Lin.sym(('var', S.params[1]['id'], S.params[1]['name']))
+    SNOOPY_ERROR = common.macro_value(ctx.repo, 'SNOOPY_ERROR')
+    refusals = []
+    if T_ is not None:
+        for b in S.blocks.values():
+            c = strip(b.cond) if b.cond is not None else None
+            if c is None or len(b.all_succs) != 2 or c.k != 'BinaryOperator' or c['op'] not in ('<', '<=', '>', '>='):
+                continue
+            def resolve(L, depth=0):
+                # a local that is initialised to 0 at its declaration and assigned once afterwards stands for that assignment
+                if L is None or depth > 6:
+                    return L
+                out_ = Lin.const(L.c)
+                for sym, co in L.t.items():
+                    term = Lin.sym(sym)
+                    if sym[0] == 'var' and not any(p_['id'] == sym[1] for p_ in S.params):
+                        ds_ = [x for x in def_exprs(S, sym[1]) if strip(x).get('v') != 0]
+                        if len(ds_) == 1:
+                            sub_ = resolve(senv.lin(ds_[0]), depth + 1)
+                            if sub_ is not None:
+                                term = sub_
+                    out_ = out_ + term.scale(co)
+                return out_
+            l_, r_ = resolve(senv.lin(c.ch[0])), resolve(senv.lin(c.ch[1]))
+            if l_ is None or r_ is None:
+                continue
+            # which edge refuses (reaches `return SNOOPY_ERROR` without copying)?
+            for si in (0, 1):
+                vis, _ = common.reach_from_edge(S, b, si)
+                rets = [S.nodes[v] for v in vis if S.nodes[v].k == 'ReturnStmt']
+                copies_ = [S.nodes[v] for v in vis if S.nodes[v].k == 'CallExpr' and S.nodes[v].get('callee') in (
+                    'strcat', 'strcpy', 'memcpy', 'strncat', 'strncpy', 'memmove', 'snprintf')]
+                if rets and not copies_ and all(strip(r.ch[0]).get('v') == SNOOPY_ERROR for r in rets if r.ch):
+                    op = c['op'] if si == 0 else {'<': '>=', '<=': '>', '>': '<=', '>=': '<'}[c['op']]
+                    one = Lin.const(1)
+                    g = {'<': r_ - l_ - one, '<=': r_ - l_, '>': l_ - r_ - one, '>=': l_ - r_}[op]   # refuse  <=>  g >= 0
+                    refusals.append((b, g))
+    want = D + T_ + Lin.const(1) - B_ - Lin.const(1) if T_ is not None else None    # strlen(d)+strlen(t)+1 > size  <=>  d+t+1-size-1 >= 0
+    for b, g in refusals:
+        chk.ob('L2', 'append-refuses-only-what-does-not-fit', g == want, b.cond.where(), S.name,
+               'the append is refused when %s >= 0, i.e. not exactly when strlen(dest) + strlen(text) + 1 > size (%s >= 0): text '
+               'that would fill the buffer to its last byte is dropped - an expansion of exactly log_message_max_length '
+               'characters loses its final piece' % (g, want),
+               how='refused exactly when %s >= 0' % want)
     # ---- L3 ------------------------------------------------------------------------------------
     n = 0
     from engine import inline
